@@ -76,7 +76,7 @@ def _case(draw, tier):
     return {
         "mesh": mesh,
         "centred": centred,
-        "data": draw(datagen.data_spec(n, dtypes=["float64", "int64", "float32"], max_lead=2)),
+        "data": draw(datagen.data_spec(n, dtypes=["float64", "int64", "float32"], max_lead=2, stores=datagen.STORES)),
         "via_uxda_first": draw(st.booleans()),
         # how the judged grid comes about: from arrays (optionally with Cartesian node coordinates on a sphere of some
         # radius), or as a face subset of that grid, taken on a fresh grid / after node_face_connectivity was derived /
